@@ -100,7 +100,11 @@ def run(report, tier, seed, driver, proofs_ok):
             if untyped(d1) == untyped(d2) and untyped(common.canon(m1.model_dump())) == untyped(common.canon(m2.model_dump())):
                 # the same values: only the class of a model / the type of a leaf differs (an object no property model accepted
                 # at first is accepted by one once its members are concrete text)
-                sub = "same-values-different-classes-or-leaf-types"
+                from .c15 import first_diff as tdiff, tcanon
+
+                td = tdiff(tcanon(m1), tcanon(m2))
+                # a model class changes (Generic -> Tag / Policy …: finding D35b), or only the type of a leaf does
+                sub = "same-values-different-classes-or-leaf-types" if (td and td[0] and td[0][-1] == "__class__") else "same-values-different-leaf-types"
             elif diff:
                 a, b = diff[1], diff[2]
                 if isinstance(a, str) and isinstance(b, str) and a.lower() == b and a != b:
